@@ -181,7 +181,7 @@ def _check(prop, tier, seed, py, modname, plan, scratch, ev_path, t0):
                                'solver_s': r.get('solver_s'), 'wall_s': r.get('wall_s'), 'detail': r.get('detail'),
                                'inconclusive': r.get('inconclusive')})
             if st == 'violated':
-                for v in r.get('violations', []):
+                for v in r.get('violations', [])[:3]:
                     triage(v.get('fkey'), v.get('what'), {'property': prop, 'kind': 'lemma', 'module': j.get('module', modname),
                                                           'job': j, 'violation': v})
             elif st == 'holds':
@@ -294,9 +294,11 @@ def _check(prop, tier, seed, py, modname, plan, scratch, ev_path, t0):
     print('%s %s: %d/%d conditions confirmed over all paths, %d/%d lemmas hold, %d/%d twins refuted as required, '
           '%d paths, %d z3 queries, %.0fs wall%s' % (prop, tier, nconf, nslices, nlem_ok, nlem, twins_ok, twins_total, evaluations,
                                                       z3_queries, wall, '' if all_exhausted else ' (some conditions not exhausted: see evidence)'))
-    for fkey, what, path in violations:
-        print('  violation %s: %s' % (fkey, what))
+    for fkey, what, path in violations[:12]:
+        print('  violation %s: %s' % (fkey, str(what)[:600]))
         print('VIOLATION property=%s replay=%s' % (prop, path))
+    if len(violations) > 12:
+        print('  ... and %d more violations (see evidence/replays)' % (len(violations) - 12))
     if violations:
         return EXIT_VIOLATION
     if harness_errors:
